@@ -517,7 +517,7 @@ func gaussianKnown(volume float64, repeat, freq, peak, stddev time.Duration, wei
 			}
 		}
 		peakRequest := volume * float64(freq) / cov / (float64(stddev) * math.Sqrt(2*math.Pi)) * wfac
-		if !(cov > 0) || !(peakRequest < 4e18) {
+		if !(cov > 0) || !(peakRequest < 1e18) { // 1e18: jitter (<= 200%) may still triple it
 			known = append(known, kGaussCovered)
 		}
 	}
